@@ -16,6 +16,10 @@ CLAIMS = {
    text="Lean 4 theorems over the Prove layer: the stored tip changes only to a strictly greater total difficulty, only to the announced/requested header which becomes the sender's proved header, the stored difficulty is the one committed by that header and - on the child fast path - its parent chain root is the proved parent's (same total difficulty, end number, parent link) (C12.last_state_store, proof_store); no other event writes the tip (other_events_keep_store); along every history the stored difficulty never decreases and the tip is unchanged unless it strictly increased (monotone_history); restart reads exactly the stored triple (restart_reproduces); witness for the forged-child defect fixed in send_last_state.rs. Tied to /repo by the C01 event histories plus forged-child announcements, with oracles on the stored tip.",
    note="Trusted: as C01. The ancestry of the remembered last-N headers is proved only as far as the handlers check it (parent links inside the new section); restart is modelled as reading the three stored values (RocksDB durability assumed).",
    technique="Lean 4 proof + handler-level differential correspondence", ref="5 C12"),
+ 'C03': dict(
+   text="Lean 4 theorems over the Index layer (model of Storage::filter_block / rollback_to_block / add_fetched_tx over structured keys with write-batch semantics): indexing every block of a well-formed chain in order yields, for every registered script, exactly the cells that are live on the chain - right out point, creating block and position, no spent or phantom cell, none missing (C03.cells_equal_chain), every output and every chain-created input touching a registered script is recorded in the history (outputs_recorded, inputs_recorded), and a fetched transaction never disturbs the index nor the stored position of an indexed transaction (fetched_tx_keeps_index; witness of the defect fixed in add_fetched_tx) - for all chains incl. same-block spend chains, multi-script and typed cells. Tied to /repo by storage-level histories of filter_block / add_fetched_tx / add_fetched_header / update_block_number / rollback_to_block on random transaction graphs with full keyspace dumps compared with the model, and with an independent ground-truth indexer.",
+   note="Trusted: Lean kernel; standard axioms; harness (transaction graph generator, dump decoder, ground-truth indexer). Structural limit stated in the theorems: inputs spending cells whose creating transaction is unknown to the store are not attributable. The delivery path (filters -> proofs -> blocks) that decides WHICH blocks reach filter_block is the business of C06/C08/C09; RPC paging of the index is C13's.",
+   technique="Lean 4 proof (last-writer algebra over write batches, induction over the chain) + storage-level differential correspondence with ground-truth indexer", ref="5 C03"),
  'C07': dict(
    text="Lean 4 theorems over the Quorum layer (model of CheckPoints::add_check_points and LightClientProtocol::finalize_check_points): final check points are never rewritten and the final index never decreases, along every event history (C07.immutable, immutable_history); every newly final index is backed by a quorum (ceil(max_outbound/2)) of distinct proven peers reporting the stored values since the previous final one (C07.quorum); a proven peer contradicting the final value is banned and nobody else (C07.contradiction_banned); fewer deviating peers than the quorum can neither finalize another value nor block agreement (C07.minority_harmless); accepted batches are aligned, contiguous, anchored (C07.add_checked) — for any number of peers, vector lengths and tie-breaks. Tied to /repo by operation-sequence correspondence on the real Peers/LightClientProtocol objects (1..6 peers, max_outbound 1..8, honest/deviating vectors, reconnects) with full state dumps after every finalize and an independent quorum/immutability/ban oracle.",
    note="Trusted: Lean kernel; standard axioms; harness (op generator, hash<->id abstraction, oracle). HashMap iteration order of the implementation enters the model as the universally quantified `choices`. Storage is modelled as the list of final check points (RocksDB assumed to store what is put).",
